@@ -108,6 +108,25 @@ CLAIMED = {
             "frame, reserved codes never constructed, header fields sourced from the block and STREAMINFO, fixed-"
             "blocking frame number from the caller, and warm-up count = residual warm-up length = declared order. "
             "Values (CRCs, Rice parameters, residual magnitudes) are not decided.", "4/C02"),
+    "C03": ("MPT on the stream encoders + dataflow identity of the stored digest / count / format values (EFFECT-engine "
+            "call log) + ORDER stop->join->read on the hashing thread + hashing-loop shape + FORWARD/SIBLING on the "
+            "Fill impls + STREAMINFO LAYOUT",
+            "In both encoders every Ok return stores md5_digest() and len_hint.unwrap_or_else(total_samples()) of the "
+            "very context every block was delivered to (the read destination is the (frame buffer, context) pair and "
+            "the pair/reference impls forward both fills); the stream is created from the source's accessors; in par "
+            "mode the context is read only after request_stop and finalize (which joins the hashing thread); the "
+            "hashing loop ends only on the empty stop block and hashes every other block with the context's own "
+            "width; STREAMINFO carries those fields in the RFC's positions. Digest values are not decided.", "4/C03"),
+    "C05": ("TYPE-SHAPE on the collector + PAIR/dataflow in worker and feeder + SIBLING on the frame encoder incl. "
+            "STREAMINFO read/write field disjointness + STATE-ENUM/RESET/PLAIN-STATE/KEY (no state survives a frame "
+            "encoding) + worker-count dataflow",
+            "Results are collected in Mutex<BTreeMap<usize,_>> keyed by the frame number and drained in order; number, "
+            "buffer and key come from one locked buffer in the worker; the feeder numbers buffers under their lock "
+            "with a counter stepping once per enqueue; both modes use the same frame encoder, which reads no "
+            "STREAMINFO field the assembler writes; the worker captures only protocol objects, a STREAMINFO clone "
+            "and an Arc'd configuration without interior mutability; the worker count reaches only pool size, spawn "
+            "range and stop tokens; thread-local storages are reset / overwritten before use. Interleavings are not "
+            "explored (structural necessary conditions only).", "4/C05"),
     "C08": ("EFFECT: bit-effect inference over the structured MIR of every BitRepr::write (loops summarised by "
             "induction-variable recognition, closures/scratch sinks inlined) compared as a normalised polynomial / "
             "case tree with the value returned by count_bits; TABLE for extra-bit writers; dataflow identities for "
